@@ -6,6 +6,7 @@ recorded in the blob's .meta at write time; the codec object whose deserialize_f
 read time (every registered codec instance is wrapped by a recording proxy); raw bytes of the
 blob file and of <data_dir>/<path>.
 """
+import enum
 import json
 import os
 import pickle
@@ -123,7 +124,7 @@ def _mk_codecs():
 
 
 TAGS = ["str_ascii", "str_empty", "str_nonascii", "str_newlines", "str_big", "bytes_plain", "bytes_empty", "bytes_all", "bytes_big",
-        "none", "int", "float", "nested", "obj", "bool", "frame0", "frame1", "frame_labels", "frame_named_index", "frame_odd_names", "user_a", "user_b"]
+        "none", "int", "float", "nested", "obj", "bool", "frame0", "frame1", "frame_labels", "frame_named_index", "frame_odd_names", "user_a", "user_b", "str_subclass", "str_enum", "bytes_subclass"]
 
 
 def value(tag):
@@ -131,6 +132,9 @@ def value(tag):
         return UserA([1, "é"])
     if tag == "user_b":
         return UserB({"k": (1, 2)})
+    if tag in ("str_subclass", "str_enum", "bytes_subclass"):
+        # (built in the untracked module: dds documents classes with base classes as outside its supported subset)
+        return SM.result_value(tag)
     return SM.result_value(tag)
 
 
@@ -270,11 +274,11 @@ def job(arg):
                 raw = open(blob, "rb").read() if os.path.isfile(blob) else None
                 raw2 = open(lk, "rb").read() if os.path.isfile(lk) else None
                 base = exp
-                if isinstance(base, str):
+                if type(base) is str:
                     rep.count("verbatim_text_checks")
                     if ref.startswith("local.") and (raw != base.encode("utf-8") or raw2 != raw):
                         rep.violate("%s/%s: str result at %r is not stored as its UTF-8 bytes" % (kind, sc, path), case, mechanism="text-not-verbatim")
-                if isinstance(base, (bytes, bytearray)):
+                if type(base) in (bytes, bytearray):
                     rep.count("verbatim_bytes_checks")
                     if ref.startswith("local.") and (raw != bytes(base) or raw2 != raw):
                         rep.violate("%s/%s: bytes result at %r is not stored verbatim" % (kind, sc, path), case, mechanism="bytes-not-verbatim")
@@ -283,11 +287,11 @@ def job(arg):
                 key = json.load(open(rec))["redirection_key"]
                 ref = json.load(open(os.path.join(root, "dbfs", "internal", "blobs", key + ".meta")))["protocol"]
                 obj = os.path.join(root, "dbfs", "data", path.lstrip("/"))
-                if isinstance(exp, str) and os.path.isfile(obj):
+                if type(exp) is str and os.path.isfile(obj):
                     rep.count("verbatim_text_checks")
                     if ref.startswith("local.") and open(obj, "rb").read() != exp.encode("utf-8"):
                         rep.violate("%s/%s: str result at %r is not stored as its UTF-8 bytes" % (kind, sc, path), case, mechanism="text-not-verbatim")
-                if isinstance(exp, (bytes, bytearray)) and os.path.isfile(obj):
+                if type(exp) in (bytes, bytearray) and os.path.isfile(obj):
                     rep.count("verbatim_bytes_checks")
                     if ref.startswith("local.") and open(obj, "rb").read() != bytes(exp):
                         rep.violate("%s/%s: bytes result at %r is not stored verbatim" % (kind, sc, path), case, mechanism="bytes-not-verbatim")
